@@ -167,6 +167,17 @@ def run(m: Model, r: Report, tier: str) -> None:
             ok = all(c in ("self._conn.close()", "self.writer.wait_closed()") or c.endswith(".close()") for c in calls)
             r.check(ok, "R6", f"{f.qualname}#idempotent", f"close() has no closed flag and awaits {calls}", loc=f.loc)
 
+    # close really closes (stream owners close the writer and wait; connection objects cancel their reader task first)
+    for f in closes:
+        src_ = [ast.unparse(n) for n in ast.walk(f.node) if isinstance(n, (ast.Expr,))]
+        if any("self.writer" in t for t in src_) or f.cls.name in ("TCPTransport", "UnixTransport", "DoIPConnection", "HSFZConnection"):
+            r.check("self.writer.close()" in src_ and any(t == "await self.writer.wait_closed()" for t in src_), "R6", f"{f.qualname}#closes-stream",
+                    "close() must close the writer and await wait_closed()", loc=f.loc)
+        if f.cls.name in ("DoIPConnection", "HSFZConnection"):
+            r.check("self._read_task.cancel()" in src_, "R6", f"{f.qualname}#cancels-reader", "close() must cancel the reader task", loc=f.loc)
+        if f.cls.name in ("DoIPTransport", "HSFZTransport"):
+            r.check("await self._conn.close()" in src_, "R6", f"{f.qualname}#closes-connection", "the transport must close its connection", loc=f.loc)
+
     # ---------------------------------------------------------------- R7
     req = m.require_function(f"{CLIENT}.UDSClient.request_unsafe")
     hs = [n for n in walk_no_nested(req.node) if isinstance(n, ast.ExceptHandler) and n.type is not None and ast.unparse(n.type) == "ConnectionError"]
